@@ -420,12 +420,22 @@ func (f *Flooder) floodAdvertisementEncrypted(
 		fwdDisplayName = ""
 	}
 
+	// Every hop adds one to the metric, like the receiver of the origin's own
+	// announcement does, so that a learned route's metric is its hop count.
+	fwdRoutes := make([]protocol.Route, len(routes))
+	for i, r := range routes {
+		if r.Metric < ^uint16(0) {
+			r.Metric++
+		}
+		fwdRoutes[i] = r
+	}
+
 	// Build the advertise payload with extended path
 	adv := &protocol.RouteAdvertise{
 		OriginAgent:       originAgent,
 		OriginDisplayName: fwdDisplayName,
 		Sequence:          sequence,
-		Routes:            routes,
+		Routes:            fwdRoutes,
 		EncPath:           fwdEncPath,
 		SeenBy:            seenBy,
 	}
